@@ -209,6 +209,15 @@ impl<'w> PoolSim<'w> {
 		*self.probes.entry(k.to_string()).or_insert(0) += 1;
 	}
 
+	fn chain_fingerprint(&self) -> String {
+		let head = self.chain.head().map(|h| format!("{}@{}", h.last_block_h, h.height)).unwrap_or_else(|e| format!("{:?}", e));
+		let hh = self.chain.header_head().map(|h| format!("{}@{}", h.last_block_h, h.height)).unwrap_or_else(|e| format!("{:?}", e));
+		let t = self.chain.txhashset();
+		let t = t.read();
+		let roots = t.roots().map(|r| format!("{:?}", r)).unwrap_or_else(|e| format!("{:?}", e));
+		format!("head {} header_head {} sizes ({}, {}, {}) roots {:x}", head, hh, t.output_mmr_size(), t.rangeproof_mmr_size(), t.kernel_mmr_size(), fnv64(roots.as_bytes()))
+	}
+
 	fn head_header(&self) -> BlockHeader {
 		self.world.blocks[self.head].block.header.clone()
 	}
@@ -325,7 +334,16 @@ impl<'w> PoolSim<'w> {
 	pub fn exec(&mut self, op: &Op) -> Result<(), Violation> {
 		self.step += 1;
 		let res = match op {
-			Op::Submit { kind, stem, r } => self.submit(kind, *stem, *r)?,
+			Op::Submit { kind, stem, r } => {
+				// a submission, accepted or refused, never touches chain state (C06, transaction clause)
+				let before = self.chain_fingerprint();
+				let out = self.submit(kind, *stem, *r)?;
+				let after = self.chain_fingerprint();
+				if before != after {
+					return Err(viol("submission-changed-chain-state", format!("step {}: submission {:?} ({}) changed the chain state: {} -> {}", self.step, kind, out, before, after)));
+				}
+				out
+			}
 			Op::MinePool { .. } => {
 				let txs = self
 					.pool
